@@ -185,4 +185,15 @@ example : readHeader ⟨true, true⟩ [7, 0, 0, 0, 104, 105] [33] = some ([7, 0,
 
 end Frame
 
+/-- **An `Accept` that times out leaves the broker usable** (the mutex is free again, whatever was or was not parked), **and
+dialling a number never disturbs this side's own accept of the same number.** -/
+theorem accept_bookkeeping (A : AcceptParams) (hA : A.Good) (nothingParked : Bool) (n m : Nat) :
+    timeoutReleasesLock A nothingParked = true ∧ acceptSlotAfterDial A n m = true := by
+  simp [timeoutReleasesLock, acceptSlotAfterDial, hA.1, hA.2]
+
+/-- Witnesses: a timeout arm that waits for a last-moment stream keeps the mutex for ever when none comes; a `Dial` that
+"releases" the entry of its number removes this side's waiting accept of the same number -/
+theorem accept_bookkeeping_witnesses :
+    timeoutReleasesLock ⟨false, true⟩ true = false ∧ acceptSlotAfterDial ⟨true, false⟩ 4 4 = false := by decide
+
 end GoPlugin.Props.C06
